@@ -207,16 +207,30 @@ S8B(p, k) ==
       \* encoding a RaptorQ block of 56403 symbols takes minutes: such objects are only added
       ops |-> << <<"add", 1>>, <<"publish">> >> \o (IF sc = 6 THEN <<>> ELSE << <<"readn", 4>> >>) ]
 
+\* S9: trigger_transfer_at under contention: three objects with several transfers each share one queue with fewer slots,
+\* so that an object is idle BETWEEN two of its own transfers; the trigger hits object p[4] after k reads
+S9P == {1, 2} \X {2, 3} \X { <<"none", 0>>, <<"delay", 2>> } \X {1, 2} \X {-1, 0}
+S9K(p) == 0..18
+S9B(p, k) ==
+    [ fam |-> "S9",
+      cfg |-> [scheme |-> 0, E |-> BigE, B |-> 8, interleave |-> 1, queues |-> << <<0, p[1]>> >>, mode |-> "full"],
+      objs |-> << [clen |-> 8, oti |-> Oti(0, 4, 2, 0, TRUE), count |-> p[2], car |-> p[3]],
+                  [clen |-> 8, oti |-> Oti(0, 4, 2, 0, TRUE), count |-> 2],
+                  [clen |-> 4, oti |-> Oti(0, 4, 2, 0, TRUE), count |-> 1] >>,
+      ops |-> << <<"add", 1>>, <<"add", 2>>, <<"add", 3>>, <<"publish">> >>
+              \o (IF k > 0 THEN << <<"readn", k>> >> ELSE <<>>)
+              \o << <<"trigger", p[4], p[5]>>, <<"drain">>, <<"adv", 3>>, <<"drain">>, <<"adv", 3>>, <<"drain">> >> ]
+
 -----------------------------------------------------------------------------
 (* The parameter spaces are cartesian products (enumerated lazily by TLC, no set of big records is   *)
 (* ever built); the dependent parameter k is a second variable.                                      *)
 Params == CASE Family = "S1" -> S1P [] Family = "S3" -> S3P [] Family = "S4" -> S4P [] Family = "S4x" -> S4xP
-            [] Family = "S5" -> S5P [] Family = "S2" -> S2Cfgs [] Family = "S7" -> S7P [] Family = "S7b" -> S7bP [] Family = "S6" -> S6P [] Family = "S8" -> S8P [] OTHER -> {}
+            [] Family = "S5" -> S5P [] Family = "S2" -> S2Cfgs [] Family = "S7" -> S7P [] Family = "S7b" -> S7bP [] Family = "S6" -> S6P [] Family = "S8" -> S8P [] Family = "S9" -> S9P [] OTHER -> {}
 KRange(p) == CASE Family = "S1" -> S1K(p) [] Family = "S3" -> S3K(p) [] Family = "S4" -> S4K(p)
-               [] Family = "S5" -> S5K(p) [] Family = "S7" -> S7K(p) [] Family = "S7b" -> {1, 3, 1000} [] OTHER -> {0}
+               [] Family = "S5" -> S5K(p) [] Family = "S9" -> S9K(p) [] Family = "S7" -> S7K(p) [] Family = "S7b" -> {1, 3, 1000} [] OTHER -> {0}
 Build(p, k) == CASE Family = "S1" -> S1B(p, k) [] Family = "S3" -> S3B(p, k) [] Family = "S4" -> S4B(p, k)
                  [] Family = "S4x" -> S4xB(p, k) [] Family = "S5" -> S5B(p, k) [] Family = "S7" -> S7B(p, k)
-                 [] Family = "S7b" -> S7bB(p, k) [] Family = "S6" -> S6B(p, k) [] Family = "S8" -> S8B(p, k)
+                 [] Family = "S7b" -> S7bB(p, k) [] Family = "S6" -> S6B(p, k) [] Family = "S8" -> S8B(p, k) [] Family = "S9" -> S9B(p, k)
 
 VARIABLES b, k, h
 Init == b \in Params /\ k \in KRange(b) /\ h = <<>>
